@@ -223,6 +223,48 @@ class Sched:
         return sum(1 for (n, idx, tid, cur, cen) in self.trace if cen and tid != cur)
 
 
+class PlanSched(Sched):
+    """Replays a prescribed interleaving given at the granularity of observable events: plan = list of
+    (tid, kind, n) meaning "run thread tid until it has logged its n-th event of that kind".  Used to
+    replay TLC-generated behaviours (spec -> code)."""
+
+    def __init__(self, targets, plan, max_steps=4000, on_boundary=None):
+        super().__init__(targets, max_steps=max_steps)
+        self.plan = list(plan)
+        self.pi = 0
+        self.on_boundary = on_boundary
+
+    def _count(self, tid, kind):
+        return sum(1 for e in self.events if e["t"] == tid and _kind(e) == kind)
+
+    def _pick(self, cur_tid):
+        en = self.enabled()
+        if not en:
+            return None
+        while self.pi < len(self.plan):
+            t, kind, n = self.plan[self.pi]
+            if self._count(t, kind) >= n:
+                if self.on_boundary:
+                    self.on_boundary(self.pi)
+                self.pi += 1
+            else:
+                break
+        if self.pi >= len(self.plan):
+            return cur_tid if cur_tid in en else en[0]
+        t = self.plan[self.pi][0]
+        if t not in en:
+            self.failed = "plan-infeasible: step %d wants thread %s, enabled %s" % (self.pi, t, en)
+            self._abort()
+            if cur_tid is not None:
+                raise Killed()
+            return None
+        return t
+
+
+def _kind(e):
+    return e["k"] + ":" + e["op"] if e["k"] == "lock" else e["k"]
+
+
 # ---- cooperative synchronisation primitives ---------------------------------------------------
 class CoopRLock:
     """threading.RLock replacement: cooperative when a Sched is active, trivial otherwise."""
